@@ -234,6 +234,22 @@ func checkEvalProp(spec *propSpec, seed uint64, replayDir, corpusDir string) (ma
 		"samples": tot.samples, "distribution": tot.st.toMap(), "corpus_cases": len(corpus),
 		"harness_errors": tot.hErrs, "disagreements": len(tot.dis),
 	}
+	if len(spec.units) > 0 {
+		ut := newUnitTotals()
+		runUnitStreams(spec.id, seed, spec.units, replayDir, ut)
+		nViol += reportUnitDisagreements(spec.id, ut.dis, replayDir)
+		frag["evaluations"] = tot.evaluations + ut.evaluations
+		frag["distinct_nontrivial"] = len(tot.nontrivial) + len(ut.distinct)
+		frag["x_unit_cases"] = ut.kinds
+		frag["disagreements"] = len(tot.dis) + len(ut.dis)
+		frag["harness_errors"] = append(tot.hErrs, ut.hErrs...)
+		for _, sm := range ut.samples {
+			if len(tot.samples) < 6 {
+				tot.samples = append(tot.samples, sm)
+			}
+		}
+		frag["samples"] = tot.samples
+	}
 	return frag, nViol
 }
 
@@ -268,6 +284,34 @@ func reportDisagreements(spec *propSpec, dis []*disagreement, replayDir string) 
 	return n
 }
 
+// reportUnitDisagreements writes replay files and prints VIOLATION lines for unit/relation cases.
+func reportUnitDisagreements(pid string, dis []map[string]any, replayDir string) int {
+	if len(dis) == 0 {
+		return 0
+	}
+	os.MkdirAll(replayDir, 0o755)
+	seen := map[string]bool{}
+	n := 0
+	for _, d := range dis {
+		key := fmt.Sprint(d["kind"], "|", d["stream"], "|", d["message"])
+		if seen[key] || n >= 3 {
+			continue
+		}
+		seen[key] = true
+		path := filepath.Join(replayDir, fmt.Sprintf("%s-%s-%s-%d.json", pid, d["kind"], d["stream"], n))
+		d["replay_cmd"] = fmt.Sprintf("./check %s --replay %s", pid, path)
+		b, _ := json.MarshalIndent(d, "", " ")
+		os.WriteFile(path, b, 0o644)
+		fmt.Printf("VIOLATION property=%s replay=%s\n  %s (%s): %s\n", pid, path, d["kind"], d["stream"], d["message"])
+		if g, ok := d["go"]; ok {
+			fmt.Printf("  go=%s\n  model=%s\n", canon(g), canon(d["model_out"]))
+		}
+		n++
+	}
+	fmt.Printf("  (%d disagreeing cases in total)\n", len(dis))
+	return n
+}
+
 func replayMain(args []string) {
 	fs := flag.NewFlagSet("replay", flag.ExitOnError)
 	prop := fs.String("prop", "", "property id")
@@ -279,6 +323,31 @@ func replayMain(args []string) {
 	}
 	if fn, ok := specialReplays[*prop]; ok {
 		os.Exit(fn(b, *file))
+	}
+	var head struct {
+		Case struct {
+			Kind string `json:"kind"`
+		} `json:"case"`
+	}
+	_ = json.Unmarshal(b, &head)
+	if head.Case.Kind != "" && head.Case.Kind != "eval" {
+		var ud struct {
+			Case *UnitCase `json:"case"`
+		}
+		if err := json.Unmarshal(b, &ud); err != nil || ud.Case == nil {
+			fatalf("replay file unreadable: %v", err)
+		}
+		ud.Case.Go = nil
+		outs := runUnitBatch([]*UnitCase{ud.Case})
+		if outs[0].hErr != "" {
+			fatalf("%s", outs[0].hErr)
+		}
+		if ok, gs, ms := unitAgree(&outs[0]); !ok {
+			fmt.Printf("VIOLATION property=%s replay=%s\n  go=%s\n  model=%s\n", *prop, *file, gs, ms)
+			os.Exit(1)
+		}
+		fmt.Printf("replay of %s: real code and model agree on the current tree\n", *file)
+		return
 	}
 	var d disagreement
 	if err := json.Unmarshal(b, &d); err != nil || d.Case == nil {
